@@ -396,6 +396,7 @@ HLconvert(int32 aid, int32 block_length, int32 number_blocks)
     uint8  local_ptbuf[16];
     int32  old_posn;           /* position in the access element */
     int    new_info  = FALSE; /* whether the special info was allocated here */
+    int    stage     = 0;     /* how far the DD list has been changed (for undoing it on error) */
     int    ret_value = SUCCEED;
 
     /* clear error stack */
@@ -453,14 +454,17 @@ HLconvert(int32 aid, int32 block_length, int32 number_blocks)
     /* make new tag/ref point to existing data element */
     if (Hdupdd(file_id, new_data_tag, new_data_ref, data_tag, data_ref) == FAIL)
         HGOTO_ERROR(DFE_CANTUPDATE, FAIL);
+    stage = 1;
 
     /* Delete the old data ID */
     if (HTPdelete(access_rec->ddid) == FAIL)
         HGOTO_ERROR(DFE_CANTDELHASH, FAIL);
+    stage = 2;
 
     /* Attach to the new data ID */
     if ((access_rec->ddid = HTPcreate(file_rec, special_tag, data_ref)) == FAIL)
         HGOTO_ERROR(DFE_INTERNAL, FAIL);
+    stage = 3;
 
     /* get link ref for linked-block ? */
     link_ref = Htagnewref(file_id, DFTAG_LINKED);
@@ -529,6 +533,15 @@ done:
             free(access_rec->special_info);
             access_rec->special_info = NULL;
         }
+        /* put the element back under its own tag/ref so that a refused conversion does not lose it */
+        if (stage >= 3)
+            HTPdelete(access_rec->ddid);
+        if (stage >= 2) {
+            if ((access_rec->ddid = HTPcreate(file_rec, data_tag, data_ref)) != FAIL)
+                HTPupdate(access_rec->ddid, data_off, data_len);
+        }
+        if (stage >= 1)
+            Hdeldd(file_id, new_data_tag, new_data_ref);
     }
 
     return ret_value;
